@@ -43,6 +43,15 @@ prop("C17", "E-SEQ + E-STATE + E-GEN",
      "Acceptance of every string of <=5 (thorough 6) tokens over a 17-token comment-free alphabet and of every reachable enum-scanner state x byte class is compared with an encoding/json-based reference (list of distinct scalars, no exponents), Values() is compared entry by entry, and for every list of <=3 entries over 17 scalars x 5 annotation/comment layouts x 17 example values the schema using `enum: @e` must have the verdict and example of the schema with the list inline.",
      "Annotation syntax is judged through the five generated layouts only; strings are ASCII plus one \\u escape spelling.")
 
+prop("C03", "E-GEN",
+     "bounded exhaustive enumeration of JSON values x whitespace layouts, compared with encoding/json's ordered decoding",
+     "All JSON values of depth <=2 (thorough 3) and width <=2 over 28 scalar spellings (escapes, \\u spellings, surrogate pairs, -0, leading-zero fractions, strings that look like comments/annotations/references) and 15 key spellings, under 6 whitespace/newline layouts: Check() must accept, Example() must decode to the same ordered tree, GetAST() must have the same shape with decoded keys and values.",
+     "Duplicate decoded keys and exponent numbers excluded by the statement; encoding/json is the reference for what a JSON text denotes.")
+prop("C14", "E-GEN",
+     "bounded exhaustive enumeration of schema models x layout combinations; differential comparison with the canonical rendering",
+     "Every model of the annotated-model family (17k models quick: every node kind, ordered rule selections from per-kind pools, notes, key shortcuts, 2 levels) is rendered under every layout that differs from the canonical one in <=2 of 6 presentation dimensions (thorough: all 575 combinations) and must give the same verdict and error code and, when accepted, byte-identical AST, example, used types and OpenAPI; the repository's own test schemas are re-checked under CRLF/CR/blank-line/line-end-padding transformations.",
+     "The canonical rendering defines the meaning; messages and positions may differ between renderings.")
+
 ORDER = ["C%02d" % i for i in range(1, 21)]
 
 def main():
